@@ -444,6 +444,58 @@ def race_family(ctx, rounds):
     return out, cov
 
 
+def slow_body_races(ctx, rounds):
+    """requests whose body arrives in two parts (a slow client) racing with requests that remove or replace what they address: the toxic
+    deleted, all toxics reset, the proxy deleted while an update or a create of a toxic is half received. Whatever each request is
+    answered, the process survives and every route still answers afterwards (in-process server, requests released together; the
+    harness reports requests that never return)."""
+    rng = C.Rng(ctx.seed).fork("C07slow")
+    base = C.free_port_base("c07slow", 20)
+    if not getattr(ctx, "_h_built", False):
+        C.go_build_harness(ctx, "h")
+        ctx._h_built = True
+    h = os.path.join(C.BUILD, "h")
+
+    def wire(method, path, body=None, pause=0):
+        d = {"method": method, "path": path, "ua": "", "body": json.dumps(body) if body is not None else ""}
+        if pause:
+            d["pause_ms"] = pause
+        return d
+    cases = []
+    for r, other in enumerate(["delete_toxic", "reset", "delete_proxy", "delete_toxic_then_add"]):
+        L0 = "127.0.0.1:%d" % (base + r)
+        setup = [wire("POST", "/proxies", {"name": "p", "listen": L0, "upstream": "127.0.0.1:9"}),
+                 wire("POST", "/proxies/p/toxics", {"type": "latency", "name": "a", "attributes": {"latency": 1, "jitter": 0}})]
+        slow = [wire(rng.choice(["PATCH", "POST"]), "/proxies/p/toxics/a", {"attributes": {"latency": 50}, "toxicity": 1}, pause=rng.choice([15, 40])),
+                wire("POST", "/proxies/p/toxics", {"type": "bandwidth", "name": "b", "attributes": {"rate": 5}}, pause=rng.choice([15, 40]))]
+        fast = {"delete_toxic": [wire("DELETE", "/proxies/p/toxics/a")], "reset": [wire("POST", "/reset")], "delete_proxy": [wire("DELETE", "/proxies/p")],
+                "delete_toxic_then_add": [wire("DELETE", "/proxies/p/toxics/a"), wire("POST", "/proxies/p/toxics", {"type": "noop", "name": "a"})]}[other]
+        cases.append({"setup": setup, "batch": slow + fast, "probes": [], "rounds": rounds, "churn": [], "other": other})
+    fin, fout = os.path.join(C.BUILD, "c07_slow_in.json"), os.path.join(C.BUILD, "c07_slow_out.json")
+    json.dump({"cases": [{k: v for k, v in c.items() if k != "other"} for c in cases]}, open(fin, "w"))
+    if os.path.exists(fout):
+        os.remove(fout)
+    rc, out = C.sh([h, "-mode", "conc", "-in", fin, "-out", fout], env=C.GOENV, timeout=900)
+    cov = {"slow_body_race_rounds": 0}
+    if rc != 0 or not os.path.exists(fout):
+        m = re.search(r"(panic: .*|fatal error: .*)", out)
+        return [("crash", "the process died while a request whose body arrives in two parts raced with a delete / reset: %s" % ((m.group(1) if m else out[-300:])[:200]),
+                 {"kind": "failing-input", "conc": True, "cases": cases})], cov
+    fails = []
+    for c, rds in zip(cases, json.load(open(fout))):
+        for ri, rd in enumerate(rds):
+            cov["slow_body_race_rounds"] += 1
+            bad = [x for x in rd["batch"] if x["status"] >= 500 or x["status"] <= 0]
+            if rd.get("stuck") or bad:
+                fails.append(("api-wedged" if rd.get("stuck") else "server-error",
+                              "round %d: an update / create of a toxic whose body arrives in two parts raced with %s: %s"
+                              % (ri, c["other"], ("%d of the requests never returned - the API is wedged" % rd["stuck"]) if rd.get("stuck")
+                                 else "answered %s" % sorted(x["status"] for x in rd["batch"])),
+                              {"kind": "failing-input", "conc": True, "case": c, "observed": rd}))
+                break
+    return fails[:1], cov
+
+
 def side(ctx, proof):
     cov = {}
     deep = 1 if proof["build_ok"] else 5
@@ -453,7 +505,9 @@ def side(ctx, proof):
     cov.update(cov2)
     rf, cov3 = race_family(ctx, (1 if ctx.tier == "quick" else 12) * deep)
     cov.update(cov3)
-    return rf + fz + ff, cov
+    sb, cov4 = slow_body_races(ctx, (20 if ctx.tier == "quick" else 400) * deep)
+    cov.update(cov4)
+    return rf + fz + ff + sb, cov
 
 
 def run(ctx):
